@@ -15,6 +15,12 @@
 // handouts are also checked on stores whose entries expired, were removed
 // (swap-removal reorders the list) and were re-announced.
 //
+// Swarm draws (swarm.go): long-lived stores holding MORE agents than the
+// handout limit (limit 3..4, 4..6 agents; thorough up to 7 agents / limit 6)
+// walk through every completion flag vector; at every vector every agent
+// announces once per sequence of answers the random source can give to
+// GetPeers (the whole draw tree, no sampling algorithm assumed).
+//
 // E1 (e1.go): the same announce handler on threads of the controlled scheduler
 // (sync in tracker/peerstore -> verif/shim/vsync): every interleaving, up to a
 // preemption bound, of the cleanup passes with announcing agents at every lock
@@ -60,6 +66,7 @@ import (
 type permCtx struct {
 	k     int // remaining mixed-radix permutation index
 	draws int
+	seq   *drawSeq // swarm part: explicit answer vector (see swarm.go)
 }
 
 var permByGoroutine sync.Map // goid -> *permCtx
@@ -85,6 +92,9 @@ func decider(n int, label string) int {
 	}
 	c := v.(*permCtx)
 	c.draws++
+	if c.seq != nil {
+		return c.seq.answer(n)
+	}
 	d := c.k % n
 	c.k /= n
 	return d
@@ -163,8 +173,10 @@ func mustPeerID(b byte) core.PeerID {
 }
 
 var (
-	agentNames = []string{"p", "q", "r", "s"}
-	agentIDs   = map[string]core.PeerID{"p": mustPeerID(0x11), "q": mustPeerID(0x22), "r": mustPeerID(0x33), "s": mustPeerID(0x44)}
+	// the BFS searches use the first 3-4 agents, E1 the first 3, the swarm part up to 7
+	agentNames = []string{"p", "q", "r", "s", "t", "u", "v"}
+	agentIDs   = map[string]core.PeerID{"p": mustPeerID(0x11), "q": mustPeerID(0x22), "r": mustPeerID(0x33), "s": mustPeerID(0x44),
+		"t": mustPeerID(0x55), "u": mustPeerID(0x66), "v": mustPeerID(0x77)}
 	originIDs  = []core.PeerID{mustPeerID(0xa1), mustPeerID(0xa2)}
 	blobDigest = func() core.Digest {
 		d, err := core.NewSHA256DigestFromHex(strings.Repeat("cd", 32))
@@ -235,6 +247,7 @@ type sys struct {
 	cfg      config
 	ps       *peerstore.LocalStore
 	handler  http.Handler
+	srv      *trackerserver.Server
 	order    []string        // model: agents in first-announce order (== peerList order while nothing is removed)
 	complete map[string]bool // model: latest completion flag
 	clk      *vclock
@@ -253,6 +266,7 @@ type classKey struct {
 	binding   bool   // more other agents stored than the limit
 	status    int    // non-200 answers
 	expiry    bool   // seen in a search whose alphabet holds clock advance + cleanup passes
+	swarm     bool   // seen in the swarm part (every draw sequence on a swarm larger than the limit)
 }
 
 func newSys(cfg config) (*sys, error) {
@@ -269,7 +283,7 @@ func newSys(cfg config) (*sys, error) {
 		ps = peerstore.NewLocalStoreNoCleanup(peerstore.LocalConfig{}, clock.NewMock())
 	}
 	srv := trackerserver.New(trackerserver.Config{PeerHandoutLimit: cfg.limit}, tally.NoopScope, pol, ps, fakeOrigins{cfg.origins}, nil)
-	return &sys{cfg: cfg, ps: ps, handler: srv.Handler(), complete: map[string]bool{}, clk: clk, at: map[string]time.Time{}}, nil
+	return &sys{cfg: cfg, ps: ps, handler: srv.Handler(), srv: srv, complete: map[string]bool{}, clk: clk, at: map[string]time.Time{}}, nil
 }
 
 // listing is what the store's public API shows for the blob: GetPeers with an
@@ -628,6 +642,9 @@ func replay(run *evid.Run, path string) {
 			History []string `json:"history"`
 			Harness string   // E1 violation: scenario name + schedule
 			Choices []int
+			Swarm   string `json:"swarm"` // swarm part: unit name, walk step, draw answers
+			Step    int    `json:"walk_step"`
+			Draws   []int  `json:"draws"`
 		} `json:"case"`
 	}
 	if err := json.Unmarshal(b, &f); err != nil {
@@ -635,6 +652,10 @@ func replay(run *evid.Run, path string) {
 	}
 	if f.Case.Harness != "" {
 		replayE1(run, f.Case.Harness, f.Case.Choices)
+	}
+	if f.Case.Swarm != "" {
+		vrand.Decider = decider
+		replaySwarm(run, f.Case.Swarm, f.Case.Step, f.Case.Draws)
 	}
 	var cfg config
 	var ep string
@@ -670,20 +691,20 @@ func main() {
 	if rp := run.ReplayPath(); rp != "" {
 		replay(run, rp)
 	}
-	run.Rule = "E3: BFS over announce sequences: op = (announcing agent, completion flag, index of the permutation LocalStore.GetPeers draws) through the real tracker HTTP handler on a real LocalStore; one search per (policy in {default, completeness}) x (PeerHandoutLimit in {1,2,5}) x (number of blob origins in {0,1,2}) [thorough: plus the v1 endpoint on a 4-search sub-grid]; state = agents in store order with their latest completion flag. E3 with expiry: the same operations plus {advance the clock past the TTL, cleanupExpiredPeerEntries, cleanupExpiredPeerGroups} (explicit clock, passes called directly), permutation alphabet sized by the store's own listing, state additionally holds fresh/expired per agent. E1: generated scenarios = every start state (1-2 [thorough 1-3] stored agents, each expired or fresh, every list order up to agent symmetry, at least one expired) x every announcer program of length 1-2 over {stored agents + one new agent} x {complete, incomplete} [thorough: also two announcer threads, groups pass first, default policy without origin, a clock-tick thread]; one cleaner thread runs the entry pass then the group pass while the announcer threads announce through the real handler; every interleaving at every Lock/RLock/Unlock/RUnlock of tracker/peerstore with at most 2 [thorough 3] preemptions is executed, then the same store serves closing announces of every agent, a clock advance, refreshes, a second cleanup and more announces (with a binding limit every permutation of a closing announce is drawn). Every 200 response of every phase is checked against all five clauses. distinct = (search, state) pairs + handout outcome classes + (E1 scenario, outcome) pairs, outcome = overlap flags + handouts of the concurrent announces + store listing after the race and at the end."
+	run.Rule = "E3: BFS over announce sequences: op = (announcing agent, completion flag, index of the permutation LocalStore.GetPeers draws) through the real tracker HTTP handler on a real LocalStore; one search per (policy in {default, completeness}) x (PeerHandoutLimit in {1,2,5}) x (number of blob origins in {0,1,2}) [thorough: plus the v1 endpoint on a 4-search sub-grid]; state = agents in store order with their latest completion flag. E3 with expiry: the same operations plus {advance the clock past the TTL, cleanupExpiredPeerEntries, cleanupExpiredPeerGroups} (explicit clock, passes called directly), permutation alphabet sized by the store's own listing, state additionally holds fresh/expired per agent. Swarm draws: for PeerHandoutLimit in {3,4} and every swarm size from limit+1 to 6 (completeness policy, 1 origin) [thorough: also limit 5, the default policy without origin and 2 origins, and 7 agents with limits 3..6], one long-lived store of that many agents walks through all 2^size completion flag vectors by single announces (Gray code) [thorough, 7 agents with limit 4/5: the staircase vectors]; at every vector every stored agent in turn re-announces with its stored flag once per sequence of answers math/rand can give to the draws LocalStore.GetPeers asks for (the tree of draw answers is walked depth first, each draw's range is discovered when the code asks for it, so no sampling algorithm is assumed), through Server.announce (first sequence of every enumeration, and every store-changing announce, through the HTTP router). E1: generated scenarios = every start state (1-2 [thorough 1-3] stored agents, each expired or fresh, every list order up to agent symmetry, at least one expired) x every announcer program of length 1-2 over {stored agents + one new agent} x {complete, incomplete} [thorough: also two announcer threads, groups pass first, default policy without origin, a clock-tick thread]; one cleaner thread runs the entry pass then the group pass while the announcer threads announce through the real handler; every interleaving at every Lock/RLock/Unlock/RUnlock of tracker/peerstore with at most 2 [thorough 3] preemptions is executed, then the same store serves closing announces of every agent, a clock advance, refreshes, a second cleanup and more announces (with a binding limit every permutation of a closing announce is drawn). Every 200 response of every phase is checked against all five clauses. distinct = (search, state) pairs + handout outcome classes + (swarm unit, flag vector) pairs + (E1 scenario, outcome) pairs, outcome = overlap flags + handouts of the concurrent announces + store listing after the race and at the end."
 	run.Assume("announcers are agents (Origin=false): origins run with announcing disabled (lib/torrent/scheduler/constructors.go)")
-	run.Assume("E3 without expiry: the mock clock does not advance; E3 with expiry: every advance exceeds the TTL (an entry is fresh or expired, never at the boundary; which expired entries a store still lists is C27's subject -- the C26 clauses do not depend on it); one blob per search")
-	run.Assume("math/rand in tracker/peerstore is rewritten to verif/shim/vrand by the build overlay; every permutation GetPeers can draw is enumerated as part of the operation (BFS, closing announces under a binding limit); announces of the concurrent E1 phase draw the identity permutation")
+	run.Assume("E3 without expiry: the mock clock does not advance; E3 with expiry: every advance exceeds the TTL (an entry is fresh or expired, never at the boundary; which expired entries a store still lists is C27's subject -- the C26 clauses do not depend on it); one blob per search; swarm part: the clock does not advance, a re-announce with unchanged fields leaves the store as it is (so all draw sequences of one store state are taken on the same store)")
+	run.Assume("math/rand in tracker/peerstore is rewritten to verif/shim/vrand by the build overlay; every permutation GetPeers can draw is enumerated as part of the operation (BFS, closing announces under a binding limit); in the swarm part every draw of every announce is answered by the check and every answer vector is enumerated, whatever draws the code asks for (at most 64 draws and 200000 vectors per announce, else the run is marked not exhaustive); announces of the concurrent E1 phase draw the identity permutation")
 	run.Assume("LocalStore is built without its wall-clock tickers and cleanup goroutine (export file in the overlay); the cleanup passes are called directly, by a single cleaner thread in E1 (LocalStore runs both passes from the single cleanupTask goroutine)")
 	run.Assume("E1: sync in tracker/peerstore is rewritten to verif/shim/vsync; code between two lock operations of tracker/peerstore is data-race free; schedules are sequentially consistent interleavings at lock operations with a preemption bound; the vsync RWMutex has no writer preference")
 
 	// every part has its own time budget, so that a slow machine cannot starve
 	// a later part: expiry searches, then the announce-only grid, then E1
 	depth, npeers := 4, 3
-	xbudget, budget, e1budget := 30*time.Second, 45*time.Second, 75*time.Second
+	xbudget, budget, e1budget, swbudget := 30*time.Second, 45*time.Second, 75*time.Second, 40*time.Second
 	if run.Thorough() {
 		depth, npeers = 5, 4
-		xbudget, budget, e1budget = 150*time.Second, 300*time.Second, 330*time.Second
+		xbudget, budget, e1budget, swbudget = 150*time.Second, 300*time.Second, 330*time.Second, 120*time.Second
 	}
 	search := func(cfg config, depth int, deadline time.Time) *bfs.Result {
 		name := fmt.Sprintf("%s depth=%d", cfg, depth)
@@ -740,6 +761,9 @@ func main() {
 	for _, cfg := range cfgs {
 		search(cfg, depth, deadline)
 	}
+	tSwarm := time.Now()
+	runSwarm(run, swbudget)
+	run.Set("swarm_wall_s", time.Since(tSwarm).Seconds())
 	nclasses, threeClass, selfDrawn, binding := 0, 0, 0, 0
 	classes.Range(func(k, _ interface{}) bool {
 		ck := k.(classKey)
